@@ -291,7 +291,7 @@ def check(ctx):
     # a revoked registration is not dispatched to and a live one is not lost to someone else's revocation: the token names
     # every registered bundle member, and a revocation removes exactly the matching entries (shared with C06.b / C06.e)
     import c06 as _c06
-    ni = _core.adopt(ctx, _c06, lambda o: o["rule"] in ("C06.b", "C06.e"), "C01.i")
+    ni = _core.adopt(ctx, _c06, lambda o: o["rule"] in ("C06.b", "C06.e", "C06.g"), "C01.i")
     ctx.floor("C01.i", ni, 30, "shared revoke-exactness obligations (C06.b/e)")
     impls = trigger_impls(prog)
     ctx.floor("C01.a", len(impls), 11, "impls of ReactionTrigger")
